@@ -1369,3 +1369,118 @@ func receivedIdentifierNotInterpretedOnExport(c *core.Ctx, rule string) {
 	}
 	c.Check(stores >= 1, rule, "adjRIBOut stores the identifier it allocated", 0, "the store of the allocated path identifier was not found")
 }
+
+// oneReceiverPerConnection: `go fsm.msgReceiver()` reads BGP messages off the session's connection: header, then body.
+// Two receivers on one connection split a message between them (one takes the header, the other the body as its
+// header) and the message is never delivered.  The state whose run() starts the receiver is entered once per connection;
+// its run() must therefore never hand back a state of its own type (a self-transition makes FSM.run call run() again, and
+// with it start another receiver).
+func oneReceiverPerConnection(c *core.Ctx, rule string) {
+	recvFn := c.P.Func(srv + ".(*FSM).msgReceiver")
+	if recvFn == nil {
+		c.Check(false, rule, "FSM.msgReceiver", 0, "function not found")
+		return
+	}
+	n := 0
+	for _, f := range c.P.FuncsIn(srv) {
+		if f.Decl.Body == nil || f.Decl.Recv == nil || f.Decl.Name.Name != "run" {
+			continue
+		}
+		starts := false
+		ast.Inspect(f.Decl.Body, func(nd ast.Node) bool {
+			if gs, ok := nd.(*ast.GoStmt); ok && core.Callee(f.Pkg, gs.Call) == recvFn.Obj {
+				starts = true
+			}
+			return true
+		})
+		if !starts {
+			continue
+		}
+		n++
+		c.Analysed(f)
+		own := core.RecvObj(f).Type()
+		if pt, isPtr := own.(*types.Pointer); isPtr {
+			own = pt.Elem()
+		}
+		isOwn := func(t types.Type) bool {
+			if pt, isPtr := t.(*types.Pointer); isPtr {
+				t = pt.Elem()
+			}
+			return types.Identical(t, own)
+		}
+		seen := map[*core.Fn]bool{}
+		var mayBeOwn func(g *core.Fn, e ast.Expr, depth int) bool
+		mayBeOwn = func(g *core.Fn, e ast.Expr, depth int) bool {
+			if depth > 8 {
+				return true
+			}
+			e = core.Unparen(e)
+			if t := g.Pkg.TypesInfo.TypeOf(e); t != nil {
+				if tup, isTup := t.(*types.Tuple); isTup && tup.Len() > 0 {
+					t = tup.At(0).Type()
+				}
+				if isOwn(t) {
+					return true
+				}
+			}
+			switch x := e.(type) {
+			case *ast.CallExpr:
+				h := c.P.FnOf(core.Callee(g.Pkg, x))
+				if h == nil || h.Decl.Body == nil || seen[h] {
+					return false
+				}
+				seen[h] = true
+				res := false
+				ast.Inspect(h.Decl.Body, func(m ast.Node) bool {
+					if rs, ok := m.(*ast.ReturnStmt); ok && len(rs.Results) >= 1 && mayBeOwn(h, rs.Results[0], depth+1) {
+						res = true
+					}
+					return true
+				})
+				return res
+			case *ast.Ident:
+				for _, d := range core.DefsOf(g, core.ObjOf(g.Pkg, x)) {
+					if mayBeOwn(g, d, depth+1) {
+						return true
+					}
+				}
+			}
+			return false
+		}
+		ast.Inspect(f.Decl.Body, func(nd ast.Node) bool {
+			if _, isLit := nd.(*ast.FuncLit); isLit {
+				return false
+			}
+			rs, ok := nd.(*ast.ReturnStmt)
+			if !ok || len(rs.Results) < 1 {
+				return true
+			}
+			seen = map[*core.Fn]bool{}
+			if !mayBeOwn(f, rs.Results[0], 0) {
+				return true
+			}
+			// excluded by `_, same := v.(*ownState)` with same == false on the way to the return
+			excluded := false
+			if id, isId := core.Unparen(rs.Results[0]).(*ast.Ident); isId {
+				for _, ft := range append(core.CtlFactsAt(f, rs), core.FactsAt(f, rs)...) {
+					if ft.Expr == nil {
+						continue
+					}
+					fid, isFid := core.Unparen(ft.Expr).(*ast.Ident)
+					if !isFid || ft.Truth {
+						continue
+					}
+					for _, d := range core.DefsOf(f, core.ObjOf(f.Pkg, fid)) {
+						if ta, isTA := core.Unparen(d).(*ast.TypeAssertExpr); isTA && core.ObjOf(f.Pkg, ta.X) == core.ObjOf(f.Pkg, id) && ta.Type != nil && isOwn(f.Pkg.TypesInfo.TypeOf(ta.Type)) {
+							excluded = true
+						}
+					}
+				}
+			}
+			c.Check(excluded, rule, f.Name()+" does not return to its own state", rs.Pos(),
+				"run() starts a message receiver and can return a state of its own type: FSM.run then calls run() again and a second receiver reads the same connection — the next message is split between the receivers and never delivered")
+			return true
+		})
+	}
+	c.Check(n >= 1, rule, "state run() methods that start the message receiver", 0, "none found")
+}
